@@ -8,6 +8,7 @@ static E07: Exhaustive = Exhaustive { focus: "C07" };
 static E08: Exhaustive = Exhaustive { focus: "C08" };
 static E09: Exhaustive = Exhaustive { focus: "C09" };
 static E10: Exhaustive = Exhaustive { focus: "C10" };
+static E11: Exhaustive = Exhaustive { focus: "C11" };
 static E12: Exhaustive = Exhaustive { focus: "C12" };
 static E13: Exhaustive = Exhaustive { focus: "C13" };
 static E15: Exhaustive = Exhaustive { focus: "C15" };
@@ -21,6 +22,7 @@ pub fn exhaustive_for(p: &str) -> &'static Exhaustive {
         "C08" => &E08,
         "C09" => &E09,
         "C10" => &E10,
+        "C11" => &E11,
         "C12" => &E12,
         "C13" => &E13,
         "C15" => &E15,
@@ -35,6 +37,7 @@ static X07: Chaos = Chaos { focus: "C07" };
 static X08: Chaos = Chaos { focus: "C08" };
 static X09: Chaos = Chaos { focus: "C09" };
 static X10: Chaos = Chaos { focus: "C10" };
+static X11: Chaos = Chaos { focus: "C11" };
 static X12: Chaos = Chaos { focus: "C12" };
 static X13: Chaos = Chaos { focus: "C13" };
 static X15: Chaos = Chaos { focus: "C15" };
@@ -48,6 +51,7 @@ pub fn chaos_for(p: &str) -> &'static Chaos {
         "C08" => &X08,
         "C09" => &X09,
         "C10" => &X10,
+        "C11" => &X11,
         "C12" => &X12,
         "C13" => &X13,
         "C15" => &X15,
@@ -60,6 +64,7 @@ static H06: Hist = Hist { name: "adversarial-history", focus: "C06" };
 static H08: Hist = Hist { name: "adversarial-history", focus: "C08" };
 static H09: Hist = Hist { name: "adversarial-history", focus: "C09" };
 static H10: Hist = Hist { name: "adversarial-history", focus: "C10" };
+pub static H11: Hist = Hist { name: "adversarial-history", focus: "C11" };
 pub static H12: Hist = Hist { name: "adversarial-history", focus: "C12" };
 static H13: Hist = Hist { name: "exact-timer-history", focus: "C13" };
 static H15: Hist = Hist { name: "adversarial-history", focus: "C15" };
